@@ -12,8 +12,8 @@ CONFIG = {
     'C04': dict(streams=[('bu_class', 320), ('bu_wf', 960), ('mixed_wf', 160), ('newreq', 160), ('abort_bu', 240)], keep='ov'),
     'C05': dict(streams=[('inj_hidden', 1200), ('siblings', 240), ('td_wf', 160), ('same_session', 80)], keep='om'),
     'C06': dict(streams=[('inj_overlap', 1200), ('td_wf', 160), ('same_session', 80), ('newreq', 160)], keep='om'),
-    'C07': dict(streams=[('inj_cycle', 1040), ('reorder_cycle', 240), ('newreq', 160)], keep='ov'),
-    'C08': dict(streams=[('td_wf', 560), ('bu_wf', 320), ('multi', 80), ('panic', 240), ('abort_bu', 120), ('newreq', 160), ('same_abort', 80)], keep='od'),
+    'C07': dict(streams=[('inj_cycle', 880), ('reorder_cycle', 240), ('cycle_query', 240), ('newreq', 160)], keep='ov'),
+    'C08': dict(streams=[('td_wf', 560), ('bu_wf', 320), ('multi', 80), ('panic', 240), ('abort_bu', 120), ('newreq', 160), ('same_abort', 80), ('fail_wf', 160)], keep='od'),
     'C09': dict(streams=[('td_coarse', 880), ('bu_wf', 320), ('multi', 80)], keep='dv', extra='stampsrc'),
     'C16': dict(streams=[('td_wf', 240), ('bu_wf', 240), ('mixed_wf', 120), ('newreq', 160)], keep='oevdm', two_process=True),
     'C17': dict(streams=[('td_wf', 480), ('bu_wf', 480), ('fail_wf', 240), ('panic', 160), ('failstamp', 160)], keep='v', extra='tracker'),
@@ -40,6 +40,9 @@ def make_case(rng, stream, big=False):
     if stream == 'abort_bu':
         p, steps, meta = P.gen_abort_bu_program(rng)
         return p, steps, norm_meta(meta, 'mixed')
+    if stream == 'cycle_query':
+        p, steps = P.gen_cycle_after_query_program(rng)
+        return p, steps, norm_meta({}, 'td')
     if stream == 'reorder_cycle':
         p, steps = P.gen_reorder_cycle_program(rng)
         return p, steps, norm_meta({}, 'td')
@@ -372,10 +375,10 @@ ALSO = {'C01': {('C18', 'stale-output'), ('C18', 'stale-resource'),
         # task for no reason a from-scratch build would have (the "only if one of ITS dependencies ..." clause)
         'C02': {('C08', 'recorded-deps-differ')},
         # the bottom-up build must leave every known task up to date also when a checker fails while scheduling
-        'C03': {('C18', 'stale-after-erring-bottom-up')},
+        'C03': {('C18', 'stale-after-erring-bottom-up'), ('C09', 'dependency-not-checked')},
         # "every dependency it declared can cause it to be re-executed or scheduled": a task left stale by a bottom-up build that was
         # told about the change of a resource the task depends on
-        'C08': {('C03', 'stale-after-bottom-up'),
+        'C08': {('C03', 'stale-after-bottom-up'), ('C18', 'stale-output'), ('C18', 'stale-resource'),
                 # a dependency in the store that no execution recorded is not "exactly those of the latest execution"
                 ('C19', 'phantom-dependency')},
         'C19': {('C08', 'phantom-dependency')},
